@@ -101,9 +101,29 @@ def audit_sources():
 
 
 def props_status(pid):
-    """Re-compile Props/<pid>.v and read what Print Assumptions says.
+    """Re-compile Props/<pid>.v and its continuation files Props/<pid>b.v, ... and read what
+    Print Assumptions says under every theorem.
 
-    Returns dict(obligations, discharged, theorems, axioms, ok, log)."""
+    Returns dict(obligations, discharged, theorems, axioms, ok, log) summed over the files; the
+    first file must exist."""
+    files = [pid] + sorted(os.path.basename(f)[:-2] for f in glob.glob(
+        os.path.join(COQ, "theories", "Props", pid + "[a-z].v")))
+    tot = None
+    for name in files:
+        r = _props_status_file(name)
+        if tot is None:
+            tot = r
+            continue
+        tot["obligations"] += r["obligations"]
+        tot["discharged"] += r["discharged"]
+        tot["theorems"] += r["theorems"]
+        tot["axioms"] = sorted(set(tot["axioms"]) | set(r["axioms"]))
+        tot["ok"] = tot["ok"] and r["ok"]
+        tot["log"] += "\n" + r["log"]
+    return tot
+
+
+def _props_status_file(pid):
     src = os.path.join(COQ, "theories", "Props", pid + ".v")
     res = dict(obligations=0, discharged=0, theorems=[], axioms=[], ok=False, log="")
     if not os.path.exists(src):
